@@ -35,7 +35,7 @@ def cmd_h(tag, defs, maxlen, flags=(), tier="both", timeout=300, mem_gb=4, bound
     lk = "LK" in defs or "REAL_LK7" in defs
     return dict(name="cmd." + tag, src="C01/cmd.c", entry=entry, defines=defs + (["STEPWISE"] if step else []),
                 rename_defs=rn(dict(RFT, **OUTB)) if step else rn(RFT),
-                unwindset={"copy_from_history.0": maxlen + 1, "bs_ref.0": 16, "harness.0": 5, "harness.1": 65, "harness_outbyte.0": 515},
+                unwindset={"copy_from_history.0": maxlen + 1, "bs_ref.0": 16, "harness.0": 5, "harness.1": 65, "harness_outbyte.0": 515, "havoc_window.0": 65},
                 flags=list(flags), backend=backend, tier=tier, timeout=timeout, mem_gb=mem_gb, bounds=bounds,
                 stubs=[SPECSTUB, RFTSTUB] + (["output_byte: monitor wrapper that checks the byte-at-a-time LZ77 step and calls the real output_byte"] if step else []),
                 units=["lib/lh_new_decoder.c:lha_lh_new_read,read_code,copy_from_history,read_offset_code,output_byte"
@@ -76,8 +76,6 @@ HARNESSES = [
           bounds="closed-form oracle; real lib/lk7_decoder.c (64 KiB ring): arbitrary ring, symbolic position, distance codes 0..31, copy length 3..16"),
     cmd_h("closed.lh7", ["REAL_LH7", "LENMAX=16"], 16, flags=["--arrays-uf-always"], tier="thorough", timeout=1800, mem_gb=6,
           bounds="closed-form oracle; real lib/lh7_decoder.c (128 KiB ring): arbitrary ring, symbolic position, offset symbol 0..17, copy length 3..16"),
-    dict(cmd_h("step.so.hb4", ["HB=4", "OB=3", "STUB_OFFSET"], 256, step=True, timeout=300), rename_defs=rn(dict(RFT, **{"lib/lh_new_decoder.c": ["output_byte", "read_offset_code"]}))),
-    dict(cmd_h("step.so.hb6", ["HB=6", "OB=3", "STUB_OFFSET"], 256, step=True, timeout=300), rename_defs=rn(dict(RFT, **{"lib/lh_new_decoder.c": ["output_byte", "read_offset_code"]}))),
     cmd_h("step.hb4", ["HB=4", "OB=3"], 256, step=True, timeout=300,
           bounds="byte-at-a-time oracle; template at HISTORY_BITS 4: window, position, code (literal / every length 3..256), offset symbol 0..4, extra bits all symbolic; ring wraps up to 16 times"),
     cmd_h("step.hb6", ["HB=6", "OB=3"], 256, step=True, timeout=300,
@@ -86,6 +84,10 @@ HARNESSES = [
           bounds="byte-at-a-time oracle; LHARK template at HISTORY_BITS 4, NUM_CODES 289: every length class 3..514, distance codes 0..7"),
     cmd_h("step.lk.hb6", ["HB=6", "OB=4", "LK"], 514, step=True, timeout=300,
           bounds="byte-at-a-time oracle; LHARK template at HISTORY_BITS 6: every length class 3..514, distance codes 0..11"),
+    cmd_h("step.lk.hb3", ["HB=3", "OB=4", "LK"], 514, step=True, timeout=300,
+          bounds="byte-at-a-time oracle; LHARK template at HISTORY_BITS 3 (8-byte ring): every length class 3..514, distance codes 0..5"),
+    cmd_h("step.lh5", ["REAL_LH5"], 256, step=True, flags=["--arrays-uf-always"], tier="thorough", timeout=1800, mem_gb=6,
+          bounds="byte-at-a-time oracle; real lib/lh5_decoder.c (16 KiB ring): position, offset symbol 0..14, extra bits, every length 3..256 symbolic"),
     cmd_h("outbyte.hb4", ["HB=4", "OB=3"], 256, step=True, entry="harness_outbyte", timeout=120,
           bounds="real output_byte from an arbitrary 16-byte ring / position / buffer fill"),
     cmd_h("outbyte.lh5", ["REAL_LH5"], 256, step=True, entry="harness_outbyte", timeout=120, flags=["--arrays-uf-always"],
